@@ -29,6 +29,10 @@ def sc_mixed(params, obs, save):
             h = pool.apply_async(tasks.t_selfkill, (tag, j['how'], 'mid', 0.1), **kw)
         elif k == 'overlimit':
             h = pool.apply_async(tasks.t_value, (tag, 20), **kw)
+        elif k == 'termjob':
+            h = pool.apply_async(tasks.t_value, (tag, 20), **kw)
+            if _wait_for(lambda: h.accepted() and h.worker_pids(), 15):
+                pool.terminate_job(h.worker_pids()[0])
         else:
             items = [['%s.%d' % (tag, i), j['dur'] / 3] for i in range(j['n'])]
             if k == 'map':
